@@ -16,7 +16,13 @@
 (*          near    : function from NEAR-EQUAL VARIANT tokens to the token *)
 (*                    they differ from in exactly ONE field, and there only*)
 (*                    slightly (a fractional threshold, +-1 on an integer  *)
-(*                    field, a flipped enum)]                              *)
+(*                    field, a flipped enum),                              *)
+(*          mod     : name of the module ("flow", "isolation", "hotspot",  *)
+(*                    "circuitbreaker", "system", "outlier"; "any" where   *)
+(*                    no parametric token is used),                        *)
+(*          params  : function from PARAMETRIC tokens ("P1", "P2", ...) to *)
+(*                    the RULE RECORD they stand for: the numeric fields   *)
+(*                    of the module's rule type (see RULE PARAMETERS)]     *)
 (* The identity of a rule is its FULL field tuple = its token: "R1" and    *)
 (* its variant "R1a" are DIFFERENT rules, however close.  Reloading        *)
 (* [R1] as [R1a] is not an identical reload, R1a must be in force and be   *)
@@ -43,9 +49,151 @@ All      == "*"                 \* scope of a whole-set operation
 None     == << <<"none", "none">> >>   \* "no list" (comparable with lists, equal to none that is ever loaded)
 
 ---------------------------------------------------------------------------
+(* RULE PARAMETERS (property level)                                        *)
+(*                                                                         *)
+(* The clause "the rules in force are exactly the VALID rules of the most  *)
+(* recent load" quantifies over every rule the module's validity check     *)
+(* accepts, whatever its numbers.  A parametric token stands for a RULE    *)
+(* RECORD: the numeric fields of the module's rule type, integers only     *)
+(* (fractional fields in THOUSANDTHS: thr = 2500 is a threshold of 2.5);   *)
+(* nores = the Resource field is empty.  ValidRule is the transcription of *)
+(* IsValidRule / IsValidSystemRule of each module - it, not the driver,    *)
+(* says which rules must be in force.                                      *)
+(*   flow     [nores, tcs, cb, thr, rel, ref, intv, wup, wcf, mq,          *)
+(*             lomem, himem, lowm, hiwm]                                   *)
+(*   isolation[nores, mt, thr]                                             *)
+(*   hotspot  [nores, mt, cb, idx, key, thr, burst, dur, cap, mq]          *)
+(*   circuitbreaker [nores, strat, retry, minreq, intv, bc, maxrt, thr,    *)
+(*             probenum]      outlier = the same + [nilrule, pct]          *)
+(*   system   [mt, thr, strat]                                             *)
+
+TotalMemory == 2147483647   \* water marks of the explored rules stay below the host's memory size (assumption)
+
+ValidFlow(r) ==
+    /\ ~r.nores
+    /\ r.thr >= 0
+    /\ r.tcs >= 0
+    /\ r.cb >= 0
+    /\ r.rel \in {0, 1}                          \* CurrentResource, AssociatedResource
+    /\ (r.rel = 1 => r.ref)                      \* an associated resource must be named
+    /\ (r.tcs = 1 => r.wup > 0 /\ r.wcf # 1)     \* WarmUp
+    /\ (r.tcs = 2 => /\ r.lomem > 0 /\ r.himem > 0 /\ r.himem < r.lomem      \* MemoryAdaptive
+                     /\ r.lowm > 0 /\ r.hiwm > 0 /\ r.hiwm <= TotalMemory /\ r.lowm < r.hiwm)
+    \* (no clause on intv: EVERY StatIntervalInMs is valid)
+ValidIsolation(r) == ~r.nores /\ r.mt = 0 /\ r.thr # 0
+ValidHotspot(r) ==
+    /\ ~r.nores
+    /\ r.thr >= 0 /\ r.mt >= 0 /\ r.cb >= 0
+    /\ (r.mt = 1 => r.dur > 0)                   \* QPS (metric types: 0 = Concurrency, 1 = QPS)
+    /\ ~(r.idx > 0 /\ r.key)                     \* a positive index and a key exclude each other
+    /\ (r.cb = 0 => r.burst >= 0)                \* Reject
+    /\ (r.cb = 1 => r.mq >= 0)                   \* Throttling
+ValidBreaker(r) ==
+    /\ ~r.nores
+    /\ r.intv > 0 /\ r.retry > 0 /\ r.thr >= 0
+    /\ (r.strat \in {0, 1} => r.thr <= 1000)     \* ratios lie in [0, 1]
+    \* (a bucket count that does not divide the interval is valid: it is replaced by 1)
+ValidSystem(r)  == r.thr >= 0 /\ r.mt < 5 /\ (r.mt = 4 => r.thr <= 1000)
+ValidOutlier(r) == ~r.nilrule /\ r.pct >= 0 /\ r.pct <= 1000 /\ ValidBreaker(r)
+ValidRule(mod, r) ==
+    CASE mod = "flow"           -> ValidFlow(r)
+      [] mod = "isolation"      -> ValidIsolation(r)
+      [] mod = "hotspot"        -> ValidHotspot(r)
+      [] mod = "circuitbreaker" -> ValidBreaker(r)
+      [] mod = "system"         -> ValidSystem(r)
+      [] mod = "outlier"        -> ValidOutlier(r)
+
+(* ENFORCEMENT.  A REQUEST PROBE starts on an idle resource (nothing in     *)
+(* flight, every statistic window of its rules empty, a parameter value no  *)
+(* rule has seen) and sends requests of b units at ONE instant, holding     *)
+(* every admitted one until the probe ends.  Verdict = what a rule with     *)
+(* exactly these parameters says to the next request: "refuse", "admit", or *)
+(* "free" where this model does not determine it (warm-up between cold and  *)
+(* warm, queueing behind an earlier queued request, BBR).                   *)
+(*   g   = admitted by ALL rules so far: [units, flight]                    *)
+(*   s   = let pass by THIS rule so far: [n, units, ahead, q]               *)
+(*   env = system metrics during the probe: [load, cpu (thousandths), mem]  *)
+G0 == [units |-> 0, flight |-> 0]
+S0 == [n |-> 0, units |-> 0, ahead |-> 0, q |-> FALSE]
+Crisp(c) == IF c THEN "refuse" ELSE "admit"
+
+\* tokens a flow rule allows per statistic interval, thousandths; -1 = not determined here
+FlowLimit(r, env) ==
+    CASE r.tcs = 0 -> r.thr
+      [] r.tcs = 2 -> IF env.mem <= r.lowm THEN r.lomem * 1000 ELSE IF env.mem >= r.hiwm THEN r.himem * 1000 ELSE -1
+      [] OTHER     -> -1
+ColdFactor(r)  == IF r.wcf <= 1 THEN 3 ELSE r.wcf
+\* a warm-up rule whose token bucket is not degenerate allows between thr / cold factor (cold) and thr (warm)
+WarmHealthy(r) == r.wup * (r.thr \div 1000) >= 1 + ColdFactor(r)
+VFlow(r, env, g, s, b) ==
+    \* what the rule's statistic has counted in this probe: the resource's own admitted units - except that a rule on an
+    \* ASSOCIATED resource reads that resource's statistic (no traffic in a probe) when it shares the global statistic
+    \* and its own traffic when it got a standalone one: between 0 and g.units
+    LET lo == IF r.rel = 1 THEN 0 ELSE g.units
+        hi == g.units
+        T  == FlowLimit(r, env)
+        I  == IF r.intv = 0 THEN 1000 ELSE r.intv
+    IN  IF r.cb = 0 THEN                              \* Reject: the sum over the statistic interval may not exceed the limit
+            IF r.tcs = 1 THEN IF WarmHealthy(r) /\ (lo + b) * 1000 > r.thr THEN "refuse"
+                              ELSE IF hi + b + 1 <= r.thr \div (ColdFactor(r) * 1000) THEN "admit" ELSE "free"
+            ELSE IF T < 0 THEN "free"
+            ELSE IF (lo + b) * 1000 > T THEN "refuse" ELSE IF (hi + b) * 1000 <= T THEN "admit" ELSE "free"
+        ELSE                                          \* Throttling: one request per interval * b / limit, queueing up to mq ms
+            IF r.tcs = 1 THEN IF WarmHealthy(r) /\ b * 1000 > r.thr THEN "refuse" ELSE "free"
+            ELSE IF T < 0 THEN "free"
+            ELSE IF T = 0 \/ b * 1000 > T THEN "refuse"
+            ELSE IF s.n = 0 THEN "admit"
+            ELSE IF s.q \/ b > 100 THEN "free"
+            ELSE LET w == (b * 1000 * I) \div T IN     \* whole ms the request would have to wait
+                 IF w >= r.mq + 1 THEN "refuse" ELSE IF w + 1 <= r.mq THEN "admit" ELSE "free"
+VIsolation(r, g, b) == Crisp(g.flight + b > r.thr)
+HotWait(r, s, b) == s.ahead + (b * r.dur * 1000) \div r.thr
+VHotspot(r, g, s, b) ==
+    IF r.mt = 0 THEN Crisp(g.flight + 1 > r.thr)                      \* concurrency per parameter value
+    ELSE IF r.thr <= 0 THEN "refuse"
+    ELSE IF r.cb = 0 THEN Crisp(s.units + b > r.thr + r.burst)        \* token bucket of thr + burst
+    ELSE IF s.n = 0 THEN "admit"                                      \* pacing: thr per dur seconds, queueing below mq ms
+    ELSE Crisp(~(HotWait(r, s, b) <= 0 \/ HotWait(r, s, b) < r.mq))
+VSystem(r, env, g) ==
+    CASE r.mt = 0 -> IF env.load > r.thr THEN (IF r.strat = 1 THEN "free" ELSE "refuse") ELSE "admit"
+      [] r.mt = 1 -> Crisp(r.thr = 0)                                 \* no completed request in the window: average RT 0
+      [] r.mt = 2 -> Crisp(g.flight * 1000 >= r.thr)
+      [] r.mt = 3 -> Crisp(g.units * 1000 >= r.thr)
+      [] OTHER    -> IF env.cpu > r.thr THEN (IF r.strat = 1 THEN "free" ELSE "refuse") ELSE "admit"
+Verdict(mod, r, env, g, s, b) ==
+    CASE mod = "flow"      -> VFlow(r, env, g, s, b)
+      [] mod = "isolation" -> VIsolation(r, g, b)
+      [] mod = "hotspot"   -> VHotspot(r, g, s, b)
+      [] mod = "system"    -> VSystem(r, env, g)
+      [] OTHER             -> "free"
+\* the rule's own state after it let a request of b units pass
+PassBy(mod, r, s, b) ==
+    [n |-> s.n + 1, units |-> s.units + b,
+     ahead |-> IF mod = "hotspot" /\ r.mt = 1 /\ r.cb = 1 /\ r.thr > 0 /\ s.n > 0 THEN HotWait(r, s, b) ELSE 0,
+     q |-> s.n >= 1]
+
+\* A COMPLETION PROBE: n requests in flight together on an idle resource complete at one instant after rt ms, the last
+\* `fails' of them with an error.  A breaker rule with these parameters trips iff at some completion i the request count
+\* has reached MinRequestAmount and its ratio / count has reached the threshold ("enough failed completions -> open").
+Trips(r, n, fails, rt) ==
+    \E i \in 1..n :
+        /\ i >= r.minreq
+        /\ LET errs == IF i > n - fails THEN i - (n - fails) ELSE 0
+               slow == IF rt > r.maxrt THEN i ELSE 0
+           IN  CASE r.strat = 0 -> slow * 1000 >= r.thr * i
+                 [] r.strat = 1 -> errs * 1000 >= r.thr * i
+                 [] OTHER       -> errs * 1000 >= r.thr
+\* outlier: the failing node (one of `nodes') is ejected iff its breaker tripped and the ejection quota allows one node
+Ejects(r, n, fails, rt, nodes) == Trips(r, n, fails, rt) /\ (nodes * r.pct) \div 1000 >= 1
+
+---------------------------------------------------------------------------
 (* PROPERTY LEVEL                                                          *)
 
-IsValidEl(d, e)     == Tok(e) \notin d.invalid
+\* a token is valid unless the driver's table says it is not (I1.., Nil); a PARAMETRIC token is valid iff the module's own
+\* validity predicate - transcribed below, ValidRule - accepts its rule record
+IsParam(d, t)       == t \in DOMAIN d.params
+IsValidEl(d, e)     == /\ Tok(e) \notin d.invalid
+                       /\ IsParam(d, Tok(e)) => ValidRule(d.mod, d.params[Tok(e)])
 Restrict(list, r)   == SelectSeq(list, LAMBDA e : ResOf(e) = r)
 \* the valid rules of `list' that name resource r, in order
 ValidOf(d, list, r) == SelectSeq(list, LAMBDA e : ResOf(e) = r /\ IsValidEl(d, e))
@@ -100,7 +248,8 @@ CONSTANTS
     Resources,      \* resource names
     Tokens,         \* rule tokens used in lists (valid and invalid ones; "Nil" is added)
     MaxLen,         \* bound on the length of a loaded list
-    Mutant          \* "none", or the name of a deliberately broken variant (vacuity self-test)
+    Mutant          \* "none", or the name of a deliberately broken variant (vacuity self-test): rawBuild, staleClear,
+                    \* wrongCache, neverUnchanged, coarseReuse, coarseUnchanged, naiveSampleCount, keepBucketCount
 
 VARIABLES
     d,          \* module descriptor (fixed by Init)
@@ -150,11 +299,46 @@ CoarseList(list) == IF list = << >> THEN << >>
 SameInput(a, b) == IF Mutant = "coarseUnchanged"
                    THEN DOMAIN a = DOMAIN b /\ \A k \in DOMAIN a : CoarseList(a[k]) = CoarseList(b[k])
                    ELSE a = b
+\* BUILDING THE CONTROLLER of a valid rule derives internal quantities from the rule's numbers; a rule whose controller
+\* cannot be built is logged and SKIPPED (neither enforced nor reported, the load still returns (true, nil)) - so the
+\* derivation must succeed for EVERY rule the validity predicate accepts (invariant EveryValidRuleBuildable).
+\*  - flow (generateStatFor): a Reject / WarmUp rule reads a statistic of intv ms.  intv = 0 or the metric interval: the
+\*    resource's default metric.  Otherwise a sample count is chosen and checked against the global statistic
+\*    (GlobalIntervalMs split into buckets of GlobalBucketMs): "reuse" the global one, build a "standalone" one, or
+\*    "illegal" (sample count does not divide the interval) = error.  The sample count is intv / bucket ONLY when the
+\*    interval is a multiple of the bucket length, else 1.  Mutant "naiveSampleCount": that guard is dropped.
+\*  - circuit breaker / outlier (getRuleStatSlidingWindowBucketCount): a bucket count that is 0 or does not divide the
+\*    interval is replaced by 1 (the leap array needs interval % buckets = 0).  Mutant "keepBucketCount": it is kept.
+GlobalBucketMs   == 500
+GlobalIntervalMs == 10000
+MetricIntervalMs == 1000
+FlowSampleCount(intv) ==
+    IF Mutant = "naiveSampleCount"
+    THEN (IF intv \div GlobalBucketMs = 0 \/ intv > GlobalIntervalMs THEN 1 ELSE intv \div GlobalBucketMs)
+    ELSE IF intv > GlobalIntervalMs \/ intv < GlobalBucketMs THEN 1
+         ELSE IF intv % GlobalBucketMs = 0 THEN intv \div GlobalBucketMs ELSE 1
+ReuseCheck(sc, intv) ==
+    IF intv = 0 \/ sc = 0 \/ intv % sc # 0 THEN "illegal"
+    ELSE IF GlobalIntervalMs % intv # 0 \/ (intv \div sc) % GlobalBucketMs # 0 THEN "standalone" ELSE "reuse"
+FlowStatPlan(r) ==
+    IF ~(r.tcs = 1 \/ r.cb = 0) THEN "none"
+    ELSE IF r.intv = 0 \/ r.intv = MetricIntervalMs THEN "default"
+    ELSE ReuseCheck(FlowSampleCount(r.intv), r.intv)
+BreakerBuckets(r) ==
+    IF Mutant = "keepBucketCount" THEN (IF r.bc = 0 THEN 1 ELSE r.bc)
+    ELSE IF r.bc = 0 \/ r.intv % r.bc # 0 THEN 1 ELSE r.bc
+Buildable(mod, r) ==
+    CASE mod = "flow" -> FlowStatPlan(r) # "illegal"
+      [] mod \in {"circuitbreaker", "outlier"} -> r.intv % BreakerBuckets(r) = 0
+      [] OTHER -> TRUE
+Built(e)      == ~IsParam(d, Tok(e)) \/ Buildable(d.mod, d.params[Tok(e)])
+ValidBuilt(s) == SelectSeq(s, LAMBDA e : IsValidEl(d, e) /\ Built(e))
+
 EnfOfGroup(g) ==
-    LET V(r) == SelectSeq(g[r], LAMBDA e : IsValidEl(d, e)) IN
+    LET V(r) == ValidBuilt(g[r]) IN
     [r \in {x \in DOMAIN g : V(x) # << >>} |-> Rebuild(Get(enforced, r), V(r))]
 RepOfGroup(g) ==
-    LET V(r) == SelectSeq(g[r], LAMBDA e : IsValidEl(d, e)) IN
+    LET V(r) == ValidBuilt(g[r]) IN
     [r \in {x \in DOMAIN g : V(x) # << >>} |-> V(r)]
 
 Init ==
@@ -196,7 +380,7 @@ LoadRes(r, list) ==
        THEN /\ raw' = Drop(raw, r) /\ enforced' = Drop(enforced, r) /\ reported' = Drop(reported, r)
             /\ ret' = [changed |-> TRUE, err |-> FALSE]      \* an empty per-resource load always reports "changed"
        ELSE IF r \in DOMAIN raw /\ SameInput(<<list>>, <<raw[r]>>) THEN Unchanged
-       ELSE LET v == ValidOf(d, list, r)
+       ELSE LET v == ValidBuilt(Restrict(list, r))
                 \* Mutant "rawBuild": controllers are built from the raw list, the getter from the valid one
                 e == Rebuild(Get(enforced, r), IF Mutant = "rawBuild" THEN Restrict(list, r) ELSE v)
             IN  /\ raw' = Put(raw, r, list)
@@ -259,6 +443,10 @@ NoStaleVariant        == \A r \in DOMAIN enforced : StaleVariants(d, enforced[r]
 IdenticalReloadUnchanged == ident => (ret.changed = FALSE /\ ret.err = FALSE)
 \* an operation that reports an error leaves everything as it was
 ErrorMeansRejected == [][ret'.err => UNCHANGED <<raw, enforced, reported, want>>]_vars
+
+\* the controller of every rule the validity predicate accepts can be built (else a valid rule is silently dropped)
+EveryValidRuleBuildable ==
+    \A t \in DOMAIN d.params : ValidRule(d.mod, d.params[t]) => Buildable(d.mod, d.params[t])
 
 TypeOK == /\ ret \in [changed : BOOLEAN, err : BOOLEAN]
           /\ DOMAIN want = Resources /\ DOMAIN lastOf = Scopes
